@@ -33,6 +33,30 @@ Section Machine.
   Qed.
 End Machine.
 
+Section PairProofs.
+  Context {S1 S2 Op1 Op2 Obs1 Obs2 : Type}.
+  Variable init1 : S1.
+  Variable call1 : S1 -> Op1 -> S1 * Obs1.
+  Variable init2 : S2.
+  Variable call2 : S2 -> Op2 -> S2 * Obs2.
+
+  Lemma run_hist_pair : forall h s1 s2,
+    run_hist (call_pair call1 call2) (s1, s2) h
+    = (run_hist call1 s1 (map fst h), run_hist call2 s2 (map snd h)).
+  Proof. induction h as [|op h IH]; intros s1 s2; simpl; [reflexivity|]. apply IH. Qed.
+
+  (* the owner behaves like a fresh one as soon as each part does *)
+  Lemma pair_reuse h op :
+    run_reused init1 call1 (map fst h) (fst op) = run_fresh init1 call1 (fst op) ->
+    run_reused init2 call2 (map snd h) (snd op) = run_fresh init2 call2 (snd op) ->
+    run_reused (init1, init2) (call_pair call1 call2) h op
+    = run_fresh (init1, init2) (call_pair call1 call2) op.
+  Proof.
+    unfold run_reused, run_fresh. rewrite run_hist_pair. unfold call_pair. simpl.
+    intros -> ->. reflexivity.
+  Qed.
+End PairProofs.
+
 Lemma Forall_True {A} (l : list A) : Forall (fun _ => True) l.
 Proof. induction l; constructor; auto. Qed.
 
@@ -872,3 +896,738 @@ Proof. intro H. unfold run_reused, run_fresh. apply cte_obs_any, H. Qed.
 Lemma cte_refuted : exists h es,
   run_reused cte_init cte_call h es <> run_fresh cte_init cte_call es.
 Proof. exists [[CBegin; CVersion 0; CList]], [CVersion 0; CNull]. vm_compute. discriminate. Qed.
+
+(* ------------------------------------------------------------------ *)
+(* 1. The rules validator: Reset is as good as a new context            *)
+(* ------------------------------------------------------------------ *)
+
+(* The fields Context.Reset leaves alone, in four groups.  A group is VALID when
+   it holds the same values in the two contexts compared. *)
+Record vset := { vRT : bool; vMK : bool; vA1 : bool; vA2 : bool }.
+Definition v_none : vset := {| vRT := false; vMK := false; vA1 := false; vA2 := false |}.
+Definition vsub (a b : vset) : Prop :=
+  (vRT a = true -> vRT b = true) /\ (vMK a = true -> vMK b = true) /\
+  (vA1 a = true -> vA1 b = true) /\ (vA2 a = true -> vA2 b = true).
+Definition v_or (a b : vset) : vset :=
+  {| vRT := vRT a || vRT b; vMK := vMK a || vMK b; vA1 := vA1 a || vA1 b; vA2 := vA2 a || vA2 b |}.
+
+Lemma vsub_refl a : vsub a a.
+Proof. repeat split; auto. Qed.
+Lemma vsub_trans a b c : vsub a b -> vsub b c -> vsub a c.
+Proof. intros (A1 & A2 & A3 & A4) (B1 & B2 & B3 & B4). repeat split; auto. Qed.
+Lemma vsub_or_l a b : vsub a (v_or a b).
+Proof. repeat split; simpl; intro H; rewrite H; reflexivity. Qed.
+Lemma vsub_or_r a b : vsub b (v_or a b).
+Proof. repeat split; simpl; intro H; rewrite H; apply orb_true_r. Qed.
+Lemma vsub_or a b c : vsub a c -> vsub b c -> vsub (v_or a b) c.
+Proof.
+  intros (A1 & A2 & A3 & A4) (B1 & B2 & B3 & B4). repeat split; simpl; intro H;
+    apply orb_true_iff in H; destruct H; auto.
+Qed.
+
+Definition core (c : rctx) :=
+  (cur c, stack c, depth c, objects c, rectypes c, marked c, fwd c, refcount c).
+Definition gA1 (c : rctx) := (arr_type c, built c, arr_total c, utf8_rem c, arr_validator c).
+Definition gA2 (c : rctx) := (more_chunks c, chunk_expected c, chunk_actual c).
+
+Definition agree (V : vset) (c1 c2 : rctx) : Prop :=
+  core c1 = core c2 /\
+  (vRT V = true -> rectype_name c1 = rectype_name c2) /\
+  (vMK V = true -> marker_id c1 = marker_id c2) /\
+  (vA1 V = true -> gA1 c1 = gA1 c2) /\
+  (vA2 V = true -> gA2 c1 = gA2 c2).
+
+Definition is_marker (r : rule) : bool :=
+  match r with RMarkedObjectKeyable | RMarkedObjectAnyType => true | _ => false end.
+Definition is_chunk (r : rule) : bool :=
+  match r with RArrayChunk | RStringChunk => true | _ => false end.
+Definition is_array (r : rule) : bool :=
+  match r with RArray | RString | RArrayChunk | RStringChunk => true | _ => false end.
+
+(* which groups the method bodies of a rule may read *)
+Definition rule_demand (r : rule) : vset :=
+  {| vRT := false; vMK := is_marker r; vA1 := is_array r; vA2 := is_chunk r |}.
+(* data types whose container end is followed by a read of a group *)
+Definition dtype_special (dt : N) : bool :=
+  (dt =? DT_RecordType) || (dt =? DT_String) || (dt =? DT_ResourceID).
+Definition dtype_demand (dt : N) : vset :=
+  {| vRT := dt =? DT_RecordType; vMK := false; vA1 := (dt =? DT_String) || (dt =? DT_ResourceID); vA2 := false |}.
+Definition entry_demand (e : entry) : vset := v_or (rule_demand (e_rule e)) (dtype_demand (e_dtype e)).
+
+(* every stacked rule finds the groups it reads valid *)
+Definition cov (V : vset) (c : rctx) : Prop :=
+  Forall (fun e => vsub (entry_demand e) V) (cur c :: stack c).
+
+Definition is_string_dt (dt : N) : bool := (dt =? DT_String) || (dt =? DT_ResourceID).
+Definition argok (V : vset) (m : meth) (a : args) : Prop :=
+  m = MChildContainerEnded -> is_string_dt (a_dtype a) = true -> vA1 V = true.
+
+Definition orel (V : vset) (x y : option rctx) : Prop :=
+  match x, y with
+  | Some a, Some b => exists V', vsub V V' /\ agree V' a b /\ cov V' a
+  | None, None => True
+  | _, _ => False
+  end.
+
+Definition meth_eqb (a b : meth) : bool :=
+  match a, b with
+  | MBeginDocument, MBeginDocument | MEndDocument, MEndDocument | MChildContainerEnded, MChildContainerEnded
+  | MVersion, MVersion | MPadding, MPadding | MComment, MComment | MKeyableObject, MKeyableObject
+  | MNonKeyableObject, MNonKeyableObject | MNull, MNull | MList, MList | MMap, MMap | MRecordType, MRecordType
+  | MRecord, MRecord | MEdge, MEdge | MNode, MNode | MEnd, MEnd | MMarker, MMarker
+  | MReferenceLocal, MReferenceLocal | MArray, MArray | MStringlikeArray, MStringlikeArray
+  | MArrayBegin, MArrayBegin | MArrayChunk, MArrayChunk | MArrayData, MArrayData => true
+  | _, _ => false
+  end.
+Lemma meth_eqb_eq a b : meth_eqb a b = true <-> a = b.
+Proof. destruct a, b; simpl; split; intro H; try reflexivity; discriminate. Qed.
+
+Definition is_child_ended (m : meth) : bool := meth_eqb m MChildContainerEnded.
+Definition no_demand (r : rule) : bool := negb (is_marker r || is_array r).
+
+(* static condition on one statement of the body of (r, m) *)
+Definition prim_okb (r : rule) (m : meth) (p : prim) : bool :=
+  match p with
+  | PMarkObject _ => is_marker r
+  | PArrayRuleChunk | PStringRuleChunk => is_array r
+  | PArrayChunkRuleData | PStringChunkRuleData => is_chunk r
+  | PNotifyKeyFromBuilt => is_child_ended m
+  | PChangeRule r' => no_demand r'
+  | PBeginMarkerAnyType mk | PBeginMarkerKeyable mk => negb (dtype_special (mask_value mk))
+  | PForwardCurrent m' | PForwardParent m' => negb (is_child_ended m') || is_child_ended m
+  | _ => true
+  end.
+
+Definition all_rules : list rule :=
+  [RBeginDocument; REndDocument; RTerminal; RVersion; RTopLevel; RList; RMapKey; RMapValue; RRecordType; RRecord;
+   RArray; RArrayChunk; RString; RStringChunk; RMarkedObjectKeyable; RMarkedObjectAnyType;
+   RStringBuilder; RStringBuilderChunk; REdgeSource; REdgeDescription; REdgeDestination; RNode; RAwaitEnd].
+Definition all_meths : list meth :=
+  [MBeginDocument; MEndDocument; MChildContainerEnded; MVersion; MPadding; MComment; MKeyableObject; MNonKeyableObject;
+   MNull; MList; MMap; MRecordType; MRecord; MEdge; MNode; MEnd; MMarker; MReferenceLocal; MArray; MStringlikeArray;
+   MArrayBegin; MArrayChunk; MArrayData].
+Lemma all_rules_complete r : In r all_rules.
+Proof. destruct r; simpl; tauto. Qed.
+Lemma all_meths_complete m : In m all_meths.
+Proof. destruct m; simpl; tauto. Qed.
+
+(* the condition on the whole generated table: evaluated, not assumed *)
+Definition table_okb : bool :=
+  forallb (fun r => forallb (fun m => forallb (prim_okb r m) (dispatch r m)) all_meths) all_rules.
+Lemma table_ok_sweep : table_okb = true.
+Proof. vm_compute. reflexivity. Qed.
+Lemma table_ok r m : Forall (fun p => prim_okb r m p = true) (dispatch r m).
+Proof.
+  pose proof table_ok_sweep as H. unfold table_okb in H. rewrite forallb_forall in H.
+  specialize (H r (all_rules_complete r)). rewrite forallb_forall in H.
+  specialize (H m (all_meths_complete m)). rewrite forallb_forall in H.
+  apply Forall_forall. exact H.
+Qed.
+
+(* closed facts about the generated constants *)
+Lemma const_facts :
+  dtype_special DT_List = false /\ dtype_special DT_Map = false /\ dtype_special DT_Record = false /\
+  dtype_special DT_Edge = false /\ dtype_special DT_Invalid = false /\
+  (DT_RecordType =? DT_String) = false /\ (DT_RecordType =? DT_ResourceID) = false /\
+  forallb (fun dt => negb (dt =? DT_RecordType)) array_type_to_data_type = true.
+Proof. vm_compute. repeat split. Qed.
+
+(* ---- basic facts ---- *)
+Lemma agree_refl V c : agree V c c.
+Proof. repeat split; auto. Qed.
+
+Lemma agree_cur V c1 c2 : agree V c1 c2 -> cur c1 = cur c2.
+Proof. intros [H _]. unfold core in H. congruence. Qed.
+Lemma agree_stack V c1 c2 : agree V c1 c2 -> stack c1 = stack c2.
+Proof. intros [H _]. unfold core in H. congruence. Qed.
+
+Lemma agree_mono V V' c1 c2 : vsub V' V -> agree V c1 c2 -> agree V' c1 c2.
+Proof.
+  intros S H. destruct S as (S1 & S2 & S3 & S4). destruct H as (H0 & H1 & H2 & H3 & H4).
+  unfold agree. split; [exact H0|]. split; [|split; [|split]]; intro X; auto.
+Qed.
+
+Lemma cov_mono V V' c : vsub V V' -> cov V c -> cov V' c.
+Proof.
+  intros S H. unfold cov in *. eapply Forall_impl; [|exact H]. intros e He. cbv beta in *. eapply vsub_trans; [exact He|exact S].
+Qed.
+
+Lemma cov_same V c c' : cur c = cur c' -> stack c = stack c' -> cov V c -> cov V c'.
+Proof. unfold cov. intros -> ->. auto. Qed.
+
+Lemma orel_refl_none V : orel V None None.
+Proof. exact I. Qed.
+
+Lemma orel_some V V' a b : vsub V V' -> agree V' a b -> cov V' a -> orel V (Some a) (Some b).
+Proof. intros. exists V'. auto. Qed.
+
+Lemma orel_weaken V0 V x y : vsub V0 V -> orel V x y -> orel V0 x y.
+Proof.
+  intros S H. destruct x, y; simpl in *; auto. destruct H as [V' [S' R]]. exists V'. split; [eapply vsub_trans; eassumption|exact R].
+Qed.
+
+(* sequencing: the valid set only grows *)
+Lemma orel_bind V x y (f g : rctx -> option rctx) :
+  orel V x y ->
+  (forall V' a b, vsub V V' -> agree V' a b -> cov V' a -> orel V' (f a) (g b)) ->
+  orel V (obind x f) (obind y g).
+Proof.
+  intros H K. destruct x as [a|], y as [b|]; simpl in *; try contradiction; auto.
+  destruct H as [V' [S [A C]]]. eapply orel_weaken; [exact S|]. apply K; auto.
+Qed.
+
+Ltac ag_destruct H c1 c2 :=
+  destruct c1, c2; unfold agree, core, gA1, gA2 in H; simpl in H;
+  let Hc := fresh "Hc" in let HRT := fresh "HRT" in let HMK := fresh "HMK" in
+  let HA1 := fresh "HA1" in let HA2 := fresh "HA2" in
+  destruct H as (Hc & HRT & HMK & HA1 & HA2); inversion Hc; subst; clear Hc.
+
+Ltac ag_solve :=
+  unfold agree, core, gA1, gA2; simpl;
+  repeat match goal with
+  | |- _ /\ _ => split
+  | |- _ -> _ => intro
+  end;
+  repeat match goal with
+  | H : ?b = true -> _, H' : ?b = true |- _ => specialize (H H')
+  end;
+  repeat match goal with
+  | H : (_, _) = (_, _) |- _ => inversion H; subst; clear H
+  end;
+  try reflexivity; try congruence.
+
+(* ---- stack operations ---- *)
+Lemma stack_rule_rel V c1 c2 r dt exp :
+  agree V c1 c2 -> cov V c1 -> vsub (entry_demand (mk_entry r dt exp)) V ->
+  agree V (stack_rule r dt exp c1) (stack_rule r dt exp c2) /\ cov V (stack_rule r dt exp c1).
+Proof.
+  intros A C D. split.
+  - ag_destruct A c1 c2. unfold stack_rule. ag_solve.
+  - unfold cov in *. destruct c1; simpl in *. constructor; [exact D|exact C].
+Qed.
+
+Lemma unstack_rel V c1 c2 : agree V c1 c2 -> cov V c1 -> orel V (unstack_rule c1) (unstack_rule c2).
+Proof.
+  intros A C. pose proof (agree_stack _ _ _ A) as Es. unfold unstack_rule. rewrite <- Es.
+  destruct (stack c1) as [|e s] eqn:E; [exact I|].
+  apply orel_some with V; [apply vsub_refl| |].
+  - ag_destruct A c1 c2. simpl in *. subst. ag_solve.
+  - unfold cov in *. rewrite E in C. inversion C as [|x l H1 H2]; subst. destruct c1; simpl in *. exact H2.
+Qed.
+
+Lemma set_rule_rel V c1 c2 r :
+  agree V c1 c2 -> cov V c1 -> vsub (rule_demand r) V ->
+  agree V (set_rule c1 r) (set_rule c2 r) /\ cov V (set_rule c1 r).
+Proof.
+  intros A C D. split.
+  - ag_destruct A c1 c2. unfold set_rule. ag_solve.
+  - unfold cov in *. destruct c1; simpl in *. inversion C as [|x l H1 H2]; subst. constructor; [|exact H2].
+    unfold entry_demand in *. simpl. apply vsub_or; [exact D|].
+    eapply vsub_trans; [apply vsub_or_r|exact H1].
+Qed.
+
+Section Sound.
+  Variable cfg : rcfg.
+  Variable call : rule -> meth -> args -> rctx -> option rctx.
+  (* what is known about the callee one nesting level down *)
+  Hypothesis call_ok : forall r m a c1 c2 V,
+    agree V c1 c2 -> cov V c1 -> vsub (rule_demand r) V -> argok V m a ->
+    orel V (call r m a c1) (call r m a c2).
+
+  Lemma cov_cur_rule V c : cov V c -> vsub (rule_demand (e_rule (cur c))) V.
+  Proof.
+    unfold cov. intro H. inversion H as [|x l H1 H2]; subst.
+    eapply vsub_trans; [apply vsub_or_l|exact H1].
+  Qed.
+  Lemma cov_cur_dtype V c : cov V c -> vsub (dtype_demand (e_dtype (cur c))) V.
+  Proof.
+    unfold cov. intro H. inversion H as [|x l H1 H2]; subst.
+    eapply vsub_trans; [apply vsub_or_r|exact H1].
+  Qed.
+
+  Lemma begin_container_rel V c1 c2 r dt exp :
+    agree V c1 c2 -> cov V c1 -> no_demand r = true -> dtype_special dt = false ->
+    orel V (begin_container cfg r dt exp c1) (begin_container cfg r dt exp c2).
+  Proof.
+    intros A C Nr Nd. unfold begin_container.
+    assert (Ed : depth c1 = depth c2) by (destruct A as [H _]; unfold core in H; congruence).
+    rewrite <- Ed. destruct (_ <? _); [exact I|].
+    assert (A' : agree V (set_depth c1 (depth c1 + 1)) (set_depth c2 (depth c1 + 1))).
+    { ag_destruct A c1 c2. simpl in *. unfold set_depth. ag_solve. }
+    assert (C' : cov V (set_depth c1 (depth c1 + 1))) by (eapply cov_same; [| |exact C]; destruct c1; reflexivity).
+    destruct (stack_rule_rel V _ _ r dt exp A' C') as [A2 C2].
+    - unfold entry_demand. simpl. unfold no_demand in Nr. apply negb_true_iff, orb_false_iff in Nr. destruct Nr as [N1 N2].
+      unfold dtype_special in Nd. apply orb_false_iff in Nd. destruct Nd as [Nd N3]. apply orb_false_iff in Nd. destruct Nd as [N4 N5].
+      repeat split; simpl; intro H.
+      + rewrite N4 in H. discriminate.
+      + rewrite N1 in H. discriminate.
+      + rewrite N2, N5, N3 in H. discriminate.
+      + destruct r; simpl in *; discriminate.
+    - eapply orel_some; [apply vsub_refl|exact A2|exact C2].
+  Qed.
+
+  (* endContainerLike *)
+  Lemma end_container_like_rel V c1 c2 notify :
+    agree V c1 c2 -> cov V c1 ->
+    orel V (end_container_like call notify c1) (end_container_like call notify c2).
+  Proof.
+    intros A C. unfold end_container_like. rewrite <- (agree_cur _ _ _ A).
+    pose proof (cov_cur_dtype V c1 C) as Dd.
+    pose proof (unstack_rel V c1 c2 A C) as U.
+    destruct (unstack_rule c1) as [a|], (unstack_rule c2) as [b|]; simpl in U; try contradiction; [|exact I].
+    destruct U as [V' [S [A' C']]]. destruct notify; [|exists V'; auto].
+    rewrite <- (agree_cur _ _ _ A'). eapply orel_weaken; [exact S|].
+    apply call_ok; auto.
+    - apply cov_cur_rule. exact C'.
+    - intros _ Hs. simpl in Hs. destruct Dd as (_ & _ & D3 & _). destruct S as (_ & _ & S3 & _).
+      apply S3, D3. simpl. exact Hs.
+  Qed.
+
+  Lemma end_container_rel V c1 c2 notify :
+    agree V c1 c2 -> cov V c1 ->
+    orel V (Rules.end_container call notify c1) (Rules.end_container call notify c2).
+  Proof.
+    intros A C. unfold Rules.end_container.
+    assert (Ed : depth c1 = depth c2) by (destruct A as [H _]; unfold core in H; congruence).
+    assert (Er : rectypes c1 = rectypes c2) by (destruct A as [H _]; unfold core in H; congruence).
+    pose proof (agree_cur _ _ _ A) as Ec. rewrite <- Ed, <- Ec, <- Er.
+    destruct (depth c1 =? 0); [exact I|].
+    destruct (match e_expected (cur c1) with Some x => negb (e_count (cur c1) =? x) | None => false end); [exact I|].
+    destruct (e_dtype (cur c1) =? DT_RecordType) eqn:Ert.
+    - pose proof (cov_cur_dtype V c1 C) as (D1 & _). simpl in D1. specialize (D1 Ert).
+      destruct A as (A0 & A1 & A2 & A3 & A4). pose proof (A1 D1) as En. rewrite <- En.
+      destruct (alookup (rectype_name c1) (rectypes c1)); [exact I|].
+      apply end_container_like_rel.
+      + destruct c1, c2; unfold agree, core, gA1, gA2 in *; simpl in *. inversion A0; subst. ag_solve.
+      + eapply cov_same; [| |exact C]; destruct c1; reflexivity.
+    - apply end_container_like_rel.
+      + ag_destruct A c1 c2. simpl in *. unfold set_depth. ag_solve.
+      + eapply cov_same; [| |exact C]; destruct c1; reflexivity.
+  Qed.
+
+  Lemma try_end_array_rel V c1 c2 more :
+    agree V c1 c2 -> cov V c1 ->
+    match try_end_array call more c1, try_end_array call more c2 with
+    | Some (a, f1), Some (b, f2) => f1 = f2 /\ orel V (Some a) (Some b)
+    | None, None => True
+    | _, _ => False
+    end.
+  Proof.
+    intros A C. unfold try_end_array. destruct more.
+    - split; [reflexivity|]. exists V. auto using vsub_refl.
+    - pose proof (end_container_like_rel V c1 c2 true A C) as H.
+      destruct (end_container_like call true c1), (end_container_like call true c2); simpl in *; auto.
+  Qed.
+
+  Lemma end_chunk_rel V c1 c2 sr :
+    agree V c1 c2 -> cov V c1 -> vA1 V = true -> vA2 V = true ->
+    orel V (end_chunk call sr c1) (end_chunk call sr c2).
+  Proof.
+    intros A C H1 H2. unfold end_chunk.
+    pose proof A as (A0 & _ & _ & A3 & A4). specialize (A3 H1). specialize (A4 H2).
+    assert (E4 : utf8_rem c1 = utf8_rem c2) by (unfold gA1 in A3; congruence).
+    assert (F1 : more_chunks c1 = more_chunks c2) by (unfold gA2 in A4; congruence).
+    rewrite <- E4, <- F1.
+    destruct (sr && negb (Nat.eqb (length (utf8_rem c1)) 0)); [exact I|].
+    pose proof (try_end_array_rel V c1 c2 (more_chunks c1) A C) as T.
+    destruct (try_end_array call (more_chunks c1) c1) as [[a f1]|], (try_end_array call (more_chunks c1) c2) as [[b f2]|];
+      try contradiction; [|exact I].
+    destruct T as [<- T]. destruct f1; [exact T|].
+    simpl in T. destruct T as [V' [S [A' C']]].
+    assert (D : vsub (rule_demand (if sr then RString else RArray)) V').
+    { destruct S as (_ & _ & S3 & _). destruct sr; repeat split; simpl; intro X; try discriminate; auto. }
+    destruct (set_rule_rel V' a b _ A' C' D) as [A2 C2]. exists V'. auto.
+  Qed.
+
+  Definition v_with_A2 (V : vset) : vset := {| vRT := vRT V; vMK := vMK V; vA1 := vA1 V; vA2 := true |}.
+  Definition v_with_A1 (V : vset) : vset := {| vRT := vRT V; vMK := vMK V; vA1 := true; vA2 := vA2 V |}.
+  Definition v_with_MK (V : vset) : vset := {| vRT := vRT V; vMK := true; vA1 := vA1 V; vA2 := vA2 V |}.
+  Definition v_with_RT (V : vset) : vset := {| vRT := true; vMK := vMK V; vA1 := vA1 V; vA2 := vA2 V |}.
+  Lemma vsub_A2 V : vsub V (v_with_A2 V). Proof. repeat split; simpl; auto. Qed.
+  Lemma vsub_A1 V : vsub V (v_with_A1 V). Proof. repeat split; simpl; auto. Qed.
+  Lemma vsub_MK V : vsub V (v_with_MK V). Proof. repeat split; simpl; auto. Qed.
+  Lemma vsub_RT V : vsub V (v_with_RT V). Proof. repeat split; simpl; auto. Qed.
+
+  Lemma rule_chunk_rel V c1 c2 sr len more :
+    agree V c1 c2 -> cov V c1 -> vA1 V = true ->
+    orel V (rule_chunk cfg call sr len more c1) (rule_chunk cfg call sr len more c2).
+  Proof.
+    intros A C H1. unfold rule_chunk. destruct (len =? 0).
+    - pose proof (try_end_array_rel V c1 c2 more A C) as T.
+      destruct (try_end_array call more c1) as [[a f1]|], (try_end_array call more c2) as [[b f2]|];
+        try contradiction; [|exact I]. destruct T as [_ T]. exact T.
+    - pose proof A as (A0 & _ & _ & A3 & _). specialize (A3 H1).
+      assert (Et : arr_type c1 = arr_type c2) by (unfold gA1 in A3; congruence).
+      assert (Eo : arr_total c1 = arr_total c2) by (unfold gA1 in A3; congruence).
+      rewrite <- Et, <- Eo.
+      destruct (if sr then Some len else match array_bits (arr_type c1) with Some bits => Some (elem_byte_count bits len) | None => None end) as [ex|];
+        [|exact I].
+      destruct (_ && _); [exact I|].
+      set (R := if sr then RStringChunk else RArrayChunk).
+      set (x1 := set_array c1 _ _ _ _ _ _ _ _). set (x2 := set_array c2 _ _ _ _ _ _ _ _).
+      assert (A' : agree (v_with_A2 V) x1 x2).
+      { subst x1 x2. ag_destruct A c1 c2. simpl in *. unfold set_array. ag_solve. }
+      assert (C' : cov (v_with_A2 V) x1).
+      { eapply cov_same with (c := c1); [| |eapply cov_mono; [apply vsub_A2|exact C]]; destruct c1; reflexivity. }
+      destruct (set_rule_rel _ x1 x2 R A' C') as [A2 C2].
+      + subst R. destruct sr; repeat split; simpl; intro X; try discriminate; auto.
+      + eapply orel_some; [apply vsub_A2|exact A2|exact C2].
+  Qed.
+
+  Lemma chunk_data_rel V c1 c2 sr data :
+    agree V c1 c2 -> cov V c1 -> vA1 V = true -> vA2 V = true ->
+    orel V (chunk_data call sr data c1) (chunk_data call sr data c2).
+  Proof.
+    intros A C H1 H2. unfold chunk_data.
+    pose proof A as (A0 & _ & _ & A3 & A4). specialize (A3 H1). specialize (A4 H2).
+    unfold gA1 in A3. unfold gA2 in A4.
+    assert (E1 : chunk_actual c1 = chunk_actual c2) by congruence.
+    assert (E2 : chunk_expected c1 = chunk_expected c2) by congruence.
+    assert (E3 : utf8_rem c1 = utf8_rem c2) by congruence.
+    assert (E4 : arr_validator c1 = arr_validator c2) by congruence.
+    rewrite <- E1, <- E2, <- E3, <- E4.
+    destruct (_ <? _); [exact I|]. destruct sr.
+    - destruct (stream_string_data (utf8_rem c1) data) as [[[f n] r]|]; [|exact I].
+      destruct (_ && _); [|exact I].
+      set (x1 := set_array c1 _ _ _ _ _ _ _ _). set (x2 := set_array c2 _ _ _ _ _ _ _ _).
+      assert (A' : agree V x1 x2).
+      { subst x1 x2. ag_destruct A c1 c2. simpl in *. unfold set_array. ag_solve. }
+      assert (C' : cov V x1) by (eapply cov_same with (c := c1); [| |exact C]; destruct c1; reflexivity).
+      destruct (_ =? _); [apply end_chunk_rel; auto|exists V; auto using vsub_refl].
+    - set (x1 := set_array c1 _ _ _ _ _ _ _ _). set (x2 := set_array c2 _ _ _ _ _ _ _ _).
+      assert (A' : agree V x1 x2).
+      { subst x1 x2. ag_destruct A c1 c2. simpl in *. unfold set_array. ag_solve. }
+      assert (C' : cov V x1) by (eapply cov_same with (c := c1); [| |exact C]; destruct c1; reflexivity).
+      destruct (_ =? _); [apply end_chunk_rel; auto|exists V; auto using vsub_refl].
+  Qed.
+
+  Lemma notify_key_rel V c1 c2 k : agree V c1 c2 -> cov V c1 -> orel V (notify_key k c1) (notify_key k c2).
+  Proof.
+    intros A C. unfold notify_key. rewrite <- (agree_cur _ _ _ A).
+    destruct (existsb _ _); [exact I|].
+    eapply orel_some; [apply vsub_refl| |].
+    - ag_destruct A c1 c2. simpl in *. ag_solve.
+    - unfold cov in *. destruct c1; simpl in *. inversion C; subst. constructor; auto.
+  Qed.
+
+  Lemma mark_object_rel V c1 c2 dt : agree V c1 c2 -> cov V c1 -> vMK V = true ->
+    orel V (mark_object cfg dt c1) (mark_object cfg dt c2).
+  Proof.
+    intros A C H. unfold mark_object.
+    pose proof A as (A0 & _ & A2 & _). specialize (A2 H). unfold core in A0.
+    assert (E1 : refcount c1 = refcount c2) by congruence.
+    assert (E2 : marked c1 = marked c2) by congruence.
+    assert (E3 : fwd c1 = fwd c2) by congruence.
+    rewrite <- E1, <- E2, <- E3, <- A2.
+    destruct (_ <? _); [exact I|]. destruct (alookup _ (marked c1)); [exact I|].
+    destruct (alookup _ (fwd c1)).
+    - destruct (_ =? 0); [exact I|]. eapply orel_some; [apply vsub_refl| |].
+      + ag_destruct A c1 c2. simpl in *. ag_solve.
+      + eapply cov_same; [| |exact C]; destruct c1; reflexivity.
+    - eapply orel_some; [apply vsub_refl| |].
+      + ag_destruct A c1 c2. simpl in *. ag_solve.
+      + eapply cov_same; [| |exact C]; destruct c1; reflexivity.
+  Qed.
+
+  Lemma local_reference_rel V c1 c2 id allowed : agree V c1 c2 -> cov V c1 ->
+    orel V (local_reference id allowed c1) (local_reference id allowed c2).
+  Proof.
+    intros A C. unfold local_reference.
+    pose proof A as (A0 & _). unfold core in A0.
+    assert (E2 : marked c1 = marked c2) by congruence.
+    assert (E3 : fwd c1 = fwd c2) by congruence.
+    rewrite <- E2, <- E3.
+    destruct (alookup id (marked c1)).
+    - destruct (_ =? 0); [exact I|]. exists V. auto using vsub_refl.
+    - eapply orel_some; [apply vsub_refl| |].
+      + ag_destruct A c1 c2. simpl in *. ag_solve.
+      + eapply cov_same; [| |exact C]; destruct c1; reflexivity.
+  Qed.
+
+  Lemma array_dtype_not_rt t dt : array_dtype t = Some dt -> (dt =? DT_RecordType) = false.
+  Proof.
+    unfold array_dtype. intro H. apply nth_error_In in H.
+    destruct const_facts as (_ & _ & _ & _ & _ & _ & _ & F). rewrite forallb_forall in F.
+    specialize (F dt H). apply negb_true_iff in F. exact F.
+  Qed.
+
+  Lemma begin_array_rel V c1 c2 t r dt v : agree V c1 c2 -> cov V c1 ->
+    is_marker r = false -> is_chunk r = false -> (dt =? DT_RecordType) = false ->
+    orel V (Some (begin_array t r dt v c1)) (Some (begin_array t r dt v c2)).
+  Proof.
+    intros A C Rm Rc Nd. unfold begin_array, stack_rule.
+    eapply orel_some; [apply vsub_A1| |].
+    - ag_destruct A c1 c2. simpl in *. unfold set_array, set_cur, set_stack. ag_solve.
+    - unfold cov in *. destruct c1; simpl in *. constructor.
+      + unfold entry_demand, v_or, rule_demand, dtype_demand, vsub, mk_entry.
+        cbn [vRT vMK vA1 vA2 e_rule e_dtype v_with_A1]. rewrite Rm, Rc, Nd. repeat split; simpl; intro X; try discriminate; auto.
+      + eapply Forall_impl; [|exact C]. intros e He. cbv beta in *. eapply vsub_trans; [exact He|apply vsub_A1].
+  Qed.
+
+  Lemma begin_array_any_rel V c1 c2 t : agree V c1 c2 -> cov V c1 ->
+    orel V (begin_array_any t c1) (begin_array_any t c2).
+  Proof.
+    intros A C. unfold begin_array_any. destruct (array_dtype t) as [dt|] eqn:E; [|exact I].
+    pose proof (array_dtype_not_rt t dt E) as N.
+    destruct (is_stringlike_validated t); apply begin_array_rel; auto.
+  Qed.
+
+  Lemma orel_id V c1 c2 : agree V c1 c2 -> cov V c1 -> orel V (Some c1) (Some c2).
+  Proof. intros. exists V. auto using vsub_refl. Qed.
+
+  Lemma stack_empty_eq V c1 c2 : agree V c1 c2 -> stack c1 = stack c2.
+  Proof. apply agree_stack. Qed.
+
+  Lemma exec_prim_rel V r m a p c1 c2 :
+    agree V c1 c2 -> cov V c1 -> vsub (rule_demand r) V -> argok V m a -> prim_okb r m p = true ->
+    orel V (exec_prim cfg call r m a p c1) (exec_prim cfg call r m a p c2).
+  Proof.
+    intros A C D G K.
+    pose proof (agree_cur _ _ _ A) as Ec. pose proof (agree_stack _ _ _ A) as Es.
+    destruct p; cbn [exec_prim]; cbn [prim_okb] in K.
+    - exact I.
+    - (* PChangeRule *)
+      unfold no_demand in K. apply negb_true_iff, orb_false_iff in K. destruct K as [K1 K2].
+      destruct (set_rule_rel V c1 c2 r0 A C) as [A' C'].
+      + repeat split; simpl; intro X; try discriminate; try congruence.
+        destruct r0; simpl in *; discriminate.
+      + exists V. auto using vsub_refl.
+    - apply begin_container_rel; auto; apply const_facts.
+    - apply begin_container_rel; auto; apply const_facts.
+    - (* PBeginRecordType *)
+      destruct const_facts as (_ & _ & _ & _ & _ & F6 & F7 & _).
+      rewrite <- Es. destruct (stack c1); [|exact I].
+      unfold begin_container.
+      assert (Ed : depth c1 = depth c2) by (destruct A as [H _]; unfold core in H; congruence).
+      rewrite <- Ed. destruct (_ <? _); [exact I|].
+      eapply orel_some; [apply vsub_RT| |].
+      + ag_destruct A c1 c2. simpl in *. unfold stack_rule, set_rectypes, set_cur, set_stack, set_depth. ag_solve.
+      + unfold cov in *. destruct c1; simpl in *. constructor.
+        * unfold entry_demand, v_or, rule_demand, dtype_demand, vsub, mk_entry.
+          cbn [vRT vMK vA1 vA2 e_rule e_dtype v_with_RT is_marker is_array is_chunk]. rewrite ?N.eqb_refl, ?F6, ?F7.
+          repeat split; simpl; intro X; try discriminate; auto.
+        * eapply Forall_impl; [|exact C]. intros e He. cbv beta in *. eapply vsub_trans; [exact He|apply vsub_RT].
+    - (* PBeginRecord *)
+      assert (Er : rectypes c1 = rectypes c2) by (destruct A as [H _]; unfold core in H; congruence).
+      rewrite <- Er. destruct (alookup _ _); [|exact I]. apply begin_container_rel; auto; apply const_facts.
+    - apply begin_container_rel; auto; apply const_facts.
+    - apply begin_container_rel; auto; apply const_facts.
+    - apply end_container_rel; auto.
+    - (* PBeginMarkerAnyType *)
+      apply negb_true_iff in K. unfold stack_rule.
+      eapply orel_some; [apply vsub_MK| |].
+      + ag_destruct A c1 c2. simpl in *. unfold set_markers, set_cur, set_stack. ag_solve.
+      + unfold cov in *. destruct c1; simpl in *. constructor.
+        * unfold entry_demand, v_or, rule_demand, dtype_demand, vsub, mk_entry.
+          cbn [vRT vMK vA1 vA2 e_rule e_dtype v_with_MK is_marker is_array is_chunk].
+          unfold dtype_special in K. apply orb_false_iff in K. destruct K as [K K3]. apply orb_false_iff in K. destruct K as [K1 K2].
+          rewrite K1, K2, K3. repeat split; simpl; intro X; try discriminate; auto.
+        * eapply Forall_impl; [|exact C]. intros e He. cbv beta in *. eapply vsub_trans; [exact He|apply vsub_MK].
+    - (* PBeginMarkerKeyable *)
+      apply negb_true_iff in K. unfold stack_rule.
+      eapply orel_some; [apply vsub_MK| |].
+      + ag_destruct A c1 c2. simpl in *. unfold set_markers, set_cur, set_stack. ag_solve.
+      + unfold cov in *. destruct c1; simpl in *. constructor.
+        * unfold entry_demand, v_or, rule_demand, dtype_demand, vsub, mk_entry.
+          cbn [vRT vMK vA1 vA2 e_rule e_dtype v_with_MK is_marker is_array is_chunk].
+          unfold dtype_special in K. apply orb_false_iff in K. destruct K as [K K3]. apply orb_false_iff in K. destruct K as [K1 K2].
+          rewrite K1, K2, K3. repeat split; simpl; intro X; try discriminate; auto.
+        * eapply Forall_impl; [|exact C]. intros e He. cbv beta in *. eapply vsub_trans; [exact He|apply vsub_MK].
+    - apply local_reference_rel; auto.
+    - apply local_reference_rel; auto.
+    - destruct (validate_full_array_any _ _ _ _); [apply orel_id; auto|exact I].
+    - destruct (validate_full_array_stringlike _ _ _); [apply orel_id; auto|exact I].
+    - destruct (_ && _); [apply orel_id; auto|exact I].
+    - destruct (_ && _); [apply orel_id; auto|exact I].
+    - destruct (assert_array_type _ _); [apply orel_id; auto|exact I].
+    - apply begin_array_any_rel; auto.
+    - destruct (assert_array_type _ _); [apply begin_array_any_rel; auto|exact I].
+    - destruct (a_key a); [apply notify_key_rel; auto|exact I].
+    - (* PNotifyKeyFromArrayData *)
+      unfold key_from_array. destruct (_ =? AT_String); [apply notify_key_rel; auto|].
+      destruct (_ =? AT_ResourceID); [apply notify_key_rel; auto|apply orel_id; auto].
+    - (* PNotifyKeyFromBuilt *)
+      apply meth_eqb_eq in K. unfold argok, is_string_dt in G. specialize (G K).
+      destruct (a_dtype a =? DT_String) eqn:E1.
+      + assert (H1 : vA1 V = true) by (apply G; reflexivity).
+        destruct A as (A0 & A1 & A2 & A3 & A4). pose proof (A3 H1) as E. unfold gA1 in E.
+        assert (Eb : built c1 = built c2) by congruence. rewrite <- Eb.
+        apply notify_key_rel; auto. repeat split; auto.
+      + destruct (a_dtype a =? DT_ResourceID) eqn:E2; [|apply orel_id; auto].
+        assert (H1 : vA1 V = true) by (apply G; reflexivity).
+        destruct A as (A0 & A1 & A2 & A3 & A4). pose proof (A3 H1) as E. unfold gA1 in E.
+        assert (Eb : built c1 = built c2) by congruence. rewrite <- Eb.
+        apply notify_key_rel; auto. repeat split; auto.
+    - destruct (_ =? _); [apply orel_id; auto|exact I].
+    - (* PEndDocument *)
+      assert (Ef : fwd c1 = fwd c2) by (destruct A as [H _]; unfold core in H; congruence).
+      rewrite <- Ef. destruct (fwd c1); [|exact I].
+      destruct (set_rule_rel V c1 c2 RTerminal A C) as [A' C']; [repeat split; simpl; intro X; discriminate|].
+      exists V. auto using vsub_refl.
+    - apply unstack_rel; auto.
+    - (* PForwardCurrent *)
+      rewrite <- Ec. apply call_ok; auto.
+      + apply cov_cur_rule; auto.
+      + intros Hm Hs. apply G; auto. subst m0. simpl in K. apply meth_eqb_eq in K. exact K.
+    - (* PForwardCurrentKeyableEmptyKey *)
+      rewrite <- Ec. apply call_ok; auto.
+      + apply cov_cur_rule; auto.
+      + intros Hm; discriminate.
+    - (* PForwardParent *)
+      rewrite <- Es. destruct (stack c1) as [|e s] eqn:E; [exact I|].
+      apply call_ok; auto.
+      + unfold cov in C. rewrite E in C. inversion C as [|x l H1 H2]; subst. inversion H2 as [|y l' H3 H4]; subst.
+        eapply vsub_trans; [apply vsub_or_l|exact H3].
+      + intros Hm Hs. apply G; auto. subst m0. simpl in K. apply meth_eqb_eq in K. exact K.
+    - (* PMarkObject *)
+      assert (H : vMK V = true) by (destruct D as (_ & D2 & _); apply D2; exact K).
+      destruct s; [apply mark_object_rel; auto| |apply mark_object_rel; auto].
+      destruct (array_dtype _); [apply mark_object_rel; auto|exact I].
+    - (* PArrayRuleChunk *)
+      apply rule_chunk_rel; auto. destruct D as (_ & _ & D3 & _). apply D3. exact K.
+    - apply rule_chunk_rel; auto. destruct D as (_ & _ & D3 & _). apply D3. exact K.
+    - exact I.
+    - (* PArrayChunkRuleData *)
+      destruct D as (_ & _ & D3 & D4). apply chunk_data_rel; auto.
+      apply D3. simpl. destruct r; simpl in *; try discriminate; reflexivity.
+    - destruct D as (_ & _ & D3 & D4). apply chunk_data_rel; auto.
+      apply D3. simpl. destruct r; simpl in *; try discriminate; reflexivity.
+    - exact I.
+  Qed.
+
+  Lemma exec_prims_rel r m a ps : Forall (fun p => prim_okb r m p = true) ps ->
+    forall V c1 c2, agree V c1 c2 -> cov V c1 -> vsub (rule_demand r) V -> argok V m a ->
+    orel V (exec_prims cfg call r m a ps c1) (exec_prims cfg call r m a ps c2).
+  Proof.
+    induction 1 as [|p ps Hp _ IH]; intros V c1 c2 A C D G; simpl.
+    - apply orel_id; auto.
+    - pose proof (exec_prim_rel V r m a p c1 c2 A C D G Hp) as R.
+      destruct (exec_prim cfg call r m a p c1) as [x|], (exec_prim cfg call r m a p c2) as [y|];
+        simpl in R; try contradiction; [|exact I].
+      destruct R as [V' [S [A' C']]]. eapply orel_weaken; [exact S|].
+      apply IH; auto.
+      + eapply vsub_trans; eassumption.
+      + intros Hm Hs. destruct S as (_ & _ & S3 & _). apply S3, G; auto.
+  Qed.
+End Sound.
+
+Lemma call_rule_rel cfg : forall fuel r m a c1 c2 V,
+  agree V c1 c2 -> cov V c1 -> vsub (rule_demand r) V -> argok V m a ->
+  orel V (call_rule fuel cfg r m a c1) (call_rule fuel cfg r m a c2).
+Proof.
+  induction fuel as [|f IH]; intros r m a c1 c2 V A C D G; simpl; [exact I|].
+  apply exec_prims_rel; auto. apply table_ok.
+Qed.
+
+Lemma call_current_rel cfg m a c1 c2 V :
+  agree V c1 c2 -> cov V c1 -> m <> MChildContainerEnded ->
+  orel V (call_current cfg m a c1) (call_current cfg m a c2).
+Proof.
+  intros A C N. unfold call_current. rewrite <- (agree_cur _ _ _ A).
+  apply call_rule_rel; auto.
+  - apply cov_cur_rule. exact C.
+  - intro H. contradiction.
+Qed.
+
+Lemma notify_new_object_rel cfg real c1 c2 V :
+  agree V c1 c2 -> cov V c1 -> orel V (notify_new_object cfg real c1) (notify_new_object cfg real c2).
+Proof.
+  intros A C. unfold notify_new_object. rewrite <- (agree_cur _ _ _ A).
+  assert (Eo : objects c1 = objects c2) by (destruct A as [H _]; unfold core in H; congruence).
+  rewrite <- Eo.
+  destruct (match e_expected (cur c1) with Some x => real && (x <? (if real then e_count (cur c1) + 1 else e_count (cur c1))) | None => false end);
+    [exact I|].
+  destruct (_ <? _); [exact I|].
+  eapply orel_some; [apply vsub_refl| |].
+  - ag_destruct A c1 c2. simpl in *. unfold set_objects, set_cur. ag_solve.
+  - unfold cov in *. destruct c1; simpl in *. inversion C; subst. constructor; auto.
+Qed.
+
+Definition srel (V : vset) (x y : option (rctx * list event)) : Prop :=
+  match x, y with
+  | Some (a, o1), Some (b, o2) => o1 = o2 /\ exists V', vsub V V' /\ agree V' a b /\ cov V' a
+  | None, None => True
+  | _, _ => False
+  end.
+
+Definition lift_ev (ev : list event) (o : option rctx) : option (rctx * list event) :=
+  match o with Some c => Some (c, ev) | None => None end.
+
+Lemma srel_lift V ev x y : orel V x y -> srel V (lift_ev ev x) (lift_ev ev y).
+Proof. destruct x, y; simpl; auto. Qed.
+
+Lemma orel_bind_r V x y (f g : rctx -> option rctx) :
+  orel V x y ->
+  (forall V' a b, vsub V V' -> agree V' a b -> cov V' a -> orel V' (f a) (g b)) ->
+  orel V (Rules.obind x f) (Rules.obind y g).
+Proof.
+  intros H K. destruct x as [a|], y as [b|]; simpl in *; try contradiction; auto.
+  destruct H as [V' [S [A C]]]. eapply orel_weaken; [exact S|]. apply K; auto.
+Qed.
+
+Lemma obj_call_rel cfg V real m a c1 c2 : agree V c1 c2 -> cov V c1 -> m <> MChildContainerEnded ->
+  orel V (Rules.obind (notify_new_object cfg real c1) (call_current cfg m a))
+         (Rules.obind (notify_new_object cfg real c2) (call_current cfg m a)).
+Proof.
+  intros A C N. apply orel_bind_r; [apply notify_new_object_rel; auto|].
+  intros. apply call_current_rel; auto.
+Qed.
+
+Lemma rstep_rel cfg V c1 c2 e : agree V c1 c2 -> cov V c1 -> srel V (rstep cfg c1 e) (rstep cfg c2 e).
+Proof.
+  intros A C.
+  assert (L : forall ev x y, orel V x y ->
+     srel V (match x with Some c => Some (c, ev) | None => None end)
+            (match y with Some c => Some (c, ev) | None => None end)).
+  { intros ev x y H. apply (srel_lift V ev x y H). }
+  destruct e; unfold rstep, keyable, nonkeyable, simple;
+    repeat match goal with
+    | |- srel _ (match ?v with _ => _ end) _ => is_var v; destruct v
+    | |- srel _ (if ?b then _ else _) _ => destruct b
+    end;
+    try exact I;
+    try (apply L; first
+      [ apply obj_call_rel; auto; discriminate
+      | apply call_current_rel; auto; discriminate
+      | apply orel_bind_r; [apply notify_new_object_rel; auto|];
+        intros V' a b S A' C'; destruct (validate_identifier _ _); [apply call_current_rel; auto; discriminate|exact I] ]).
+Qed.
+
+Lemma run_from_rel cfg es : forall c1 c2 V i out, agree V c1 c2 -> cov V c1 ->
+  snd (fst (run_from cfg c1 i es out)) = snd (fst (run_from cfg c2 i es out)) /\
+  snd (run_from cfg c1 i es out) = snd (run_from cfg c2 i es out).
+Proof.
+  induction es as [|e es IH]; intros c1 c2 V i out A C; simpl; [auto|].
+  pose proof (rstep_rel cfg V c1 c2 e A C) as R. unfold srel in R.
+  destruct (rstep cfg c1 e) as [[a o1]|], (rstep cfg c2 e) as [[b o2]|]; try contradiction.
+  - destruct R as [<- [V' [S [A' C']]]]. eapply IH; eassumption.
+  - simpl. auto.
+Qed.
+
+(* Reset brings every context to the initial one up to the four groups, none of which a
+   stacked rule may read at that point *)
+Lemma reset_agree c : agree v_none (reset_rctx c) (reset_rctx init_rctx).
+Proof. unfold agree. split; [reflexivity|]. repeat split; simpl; discriminate. Qed.
+
+Lemma reset_cov c : cov v_none (reset_rctx c).
+Proof.
+  unfold cov. simpl. constructor; [|constructor].
+  vm_compute. repeat split; intro; discriminate.
+Qed.
+
+Lemma rules_call_any cfg c es : snd (rules_call cfg c es) = snd (rules_call cfg init_rctx es).
+Proof.
+  unfold rules_call.
+  destruct (run_from_rel cfg es _ _ v_none 0 [] (reset_agree c) (reset_cov c)) as [E1 E2].
+  destruct (run_from cfg (reset_rctx c) 0 es []) as [[c1 o1] r1].
+  destruct (run_from cfg (reset_rctx init_rctx) 0 es []) as [[c2 o2] r2].
+  simpl in *. congruence.
+Qed.
+
+Lemma rules_reuse cfg h es :
+  run_reused init_rctx (rules_call cfg) h es = run_fresh init_rctx (rules_call cfg) es.
+Proof. unfold run_reused, run_fresh. apply rules_call_any. Qed.
+
+(* a freshly initialised context (Init = allocate + Reset) is the reset of the zero context *)
+Lemma reset_init : reset_rctx init_rctx = init_rctx.
+Proof. reflexivity. Qed.
